@@ -40,12 +40,14 @@ from unittest import mock
 import common as C
 
 PROPERTY = "C14"
-LEAN_MODULES = ["LccModel.Props.C14", "LccModel.Props.C14Inject", "LccModel.Props.C14Callable", "LccModel.Props.C14Reconfig"]
+LEAN_MODULES = ["LccModel.Props.C14", "LccModel.Props.C14Inject", "LccModel.Props.C14Callable", "LccModel.Props.C14Reconfig",
+                "LccModel.Props.C14Disk"]
 PROPS_FILES = ["LccModel/Props/C14.lean", "LccModel/Props/C14Inject.lean", "LccModel/Props/C14Callable.lean",
-               "LccModel/Props/C14Reconfig.lean"]
+               "LccModel/Props/C14Reconfig.lean", "LccModel/Props/C14Disk.lean"]
 NAMESPACES = {"LccModel/Props/C14.lean": "LccModel.C14", "LccModel/Props/C14Inject.lean": "LccModel.C14I",
-              "LccModel/Props/C14Callable.lean": "LccModel.C14C", "LccModel/Props/C14Reconfig.lean": "LccModel.C14R"}
-TABLE_OPENS = ("LccModel.Inject",)
+              "LccModel/Props/C14Callable.lean": "LccModel.C14C", "LccModel/Props/C14Reconfig.lean": "LccModel.C14R",
+              "LccModel/Props/C14Disk.lean": "LccModel.C14Disk"}
+TABLE_OPENS = ("LccModel.Inject", "LccModel.ProjectFiles")
 DRIVER = "drivers/C14.lean"
 TRUSTED_BASE = [
     "Lean 4.33.0 kernel; axioms of the property theorems ⊆ {propext, Classical.choice, Quot.sound}",
@@ -62,6 +64,11 @@ TRUSTED_BASE = [
     "tag_application_table_agrees / prop_application_table_agrees) is tied to the code by C14.reconfig (harness/props/_c14seq.py): "
     "check_test_compliance / check_suite_compliance / check_suites_compliance / PreparedProject.create on ONE policy / Project object, "
     "every verdict also computed by a fresh MetadataPolicy configured with the same calls",
+    "projects ON DISK (Model/ProjectFiles.lean): which project load_project designates (argument, $LCC_PROJECT, $LCC_PROJECT_FILE, working directory; "
+    "re-extracted from the real load_project / _load_project_from_path on every run: Generated/C14TablesCheck.lean designation_table_agrees (27 rows), "
+    "resolution_table_agrees, search_table_agrees) and several preparations in one process (import_module registers in sys.modules and never reads it) "
+    "are tied to the code by C14.disk (harness/props/_c14disk.py): the generated projects rendered to project.py / fixtures/fx.py / suites/*.py at fixed "
+    "paths, rewritten between preparations, prepared through PreparedProject.create(load_project(..)), cli.main(['check'..]) and cli.main(['run'..])",
     "correspondence harness harness/props/c14.py: generated projects are built with the real decorators/loaders and pushed "
     "through the real PreparedProject.create / PreparedProject.run",
     "the scheduler / task graph (task.py, runner.py build_tasks) is NOT modelled here (M1, M2, M5 belong to C01-C03): the "
@@ -79,6 +86,9 @@ ASSUMPTIONS = [
     "recursion depth of valid chains stays far below sys.getrecursionlimit() (generated chains <= 8 fixtures, <= 7 tests)",
     "attribute identifiers of a suite are pairwise distinct (no instance attribute shadowing a class attribute of the same name); "
     "InjectedFixture objects returned by properties are not generated (the helper skips properties)",
+    "C14.disk: the environment variables designate a loadable project or nothing (cli.main builds the `run` sub-parser with load_project() on EVERY "
+    "command, so an unsuitable $LCC_PROJECT makes every command fail before -p is read: outside the statement); project.py files are well-formed; "
+    "one fixture module per project; no ancestor of the scratch directory holds project.py / suites",
     "leaf suites without tests are generated rarely (3%): D1 (empty suite + nb_threads >= 2 raised LookupError in on_suite_end) "
     "was repaired in /repo by 273e673; its witness stays in the corpus of C14.run",
 ]
@@ -93,7 +103,11 @@ EXPLANATION = ("Completeness (prepare = ok iff declarative validity; errors are 
                "callable_arguments_found; table callableTable), and a per-thread fixture of an accepted project has scope session or suite "
                "(C14C.prepareFull_accepts_iff, refused_declaration_never_accepted; table declTable).  "
                "A policy object that is reconfigured between checks applies, at every check, the rules as they are at that moment "
-               "(C14R.check_verdict_current_rules, earlier_checks_invisible, forbidden_tag_rejected_after_reconfiguration; stream C14.reconfig).")
+               "(C14R.check_verdict_current_rules, earlier_checks_invisible, forbidden_tag_rejected_after_reconfiguration; stream C14.reconfig).  "
+               "The project that is judged is the DESIGNATED one (-p before $LCC_PROJECT before $LCC_PROJECT_FILE before the working directory: "
+               "C14Disk.argument_wins, verdict_of_designated_project; tables designationTable / resolutionTable / searchTable) and it is judged by its "
+               "files as they are at that preparation, whatever the process prepared before (C14Disk.checks_reflect_current_files, "
+               "kth_check_accepts_iff_valid_now; stream C14.disk).")
 
 SCOPE_LEVEL = {"test": 1, "suite": 2, "session": 3, "pre_run": 4}
 BUILTINS = ("cli_args", "project_dir")
@@ -327,7 +341,8 @@ def tables(ctx):
     from props import _c14seq
     app_tag, app_prop = _c14seq.application_rows()
     imps = ("LccModel.Model.PolicySeq",)
-    return [C.Table("tagApplicationTable", "List ((Option Bool × Option Bool) × Option (Bool × Bool))", app_tag, imports=imps),
+    from props import _c14disk
+    return _c14disk.tables() + [C.Table("tagApplicationTable", "List ((Option Bool × Option Bool) × Option (Bool × Bool))", app_tag, imports=imps),
             C.Table("propApplicationTable", "List ((Option Bool × Option Bool) × Option (Bool × Bool))", app_prop, imports=imps),
             C.Table("discoveryTable", "List ((Shape × Place) × Bool)", disc, imports=imp),
             C.Table("assignTable", "List ((Shape × Place) × Bool)", asg, imports=imp),
@@ -2083,5 +2098,5 @@ class Run(C.Stream):
 
 
 def streams(ctx):
-    from props import _c14seq
-    return [Validate(), Run(), _c14seq.Reconfig()]
+    from props import _c14seq, _c14disk
+    return [Validate(), Run(), _c14seq.Reconfig(), _c14disk.Disk()]
